@@ -12,7 +12,10 @@ The model and the runner read only the first four tokens.
 """
 ID = 'C02'
 PROFILES = ['debug']
-THEOREMS = []
+THEOREMS = ['C02_spelling', 'C02_int_follow_delimiter', 'C02_number_spelling', 'C02_int_then_ref', 'C02_name_spelling',
+            'C02_name_decode_is_simple', 'C02_lit_string_balanced', 'C02_hex_string_spelling', 'C02_whitespace',
+            'C02_dict_no_null', 'C02_no_null_anywhere', 'C02_dup_key_rejected', 'C02_dup_key_rejected_anywhere',
+            'C02_no_comment_object']
 RULE = ('random values (depth <= 8; names over all non-zero bytes, strings over all bytes, i64/i128 boundary numbers) x a '
         'random legal spelling (whitespace/comments between tokens, #-escapes, balanced/escaped parentheses, hex case/'
         'whitespace/odd digits, leading zeros/signs) x following context (end, each delimiter, whitespace, keyword, "0 R"); '
@@ -681,6 +684,15 @@ def classify(case, obs):
     return k + ':' + obs.split(' ')[0]
 
 
-LEVEL_TEXT = ''
-LEVEL_NOTE = ''
-TECHNIQUE = ''
+LEVEL_TEXT = ('Coq theorem C02_spelling, by induction on the spelling derivation (Spec/Spelling.v): every value (null, booleans, '
+              'integers, reals, names, literal and hex strings, references, arrays and dictionaries to any depth) x every spelling '
+              '(signs, leading zeros, #-escapes, balanced/escaped parentheses, hex case/whitespace/odd digits, whitespace and '
+              'comments between tokens, dropped `key null` pairs) x every legal following context x any preceding text parses '
+              'to exactly that value with span and cursor exactly the spelling; dictionaries never hold null values and a repeated '
+              'non-null key is rejected (for every accepted/any input); the model is tied to pdf_obj.rs/pdf_prim.rs by a '
+              'differential run over generated spellings, look-ahead cases, duplicate keys and mutations')
+LEVEL_NOTE = ('trusted: Coq kernel, hand transcriptions coq/Model/Prim.v + coq/Model/Obj.v (validated by the correspondence run), '
+              'extraction + ocaml/drv.ml, harness/src/bin/c02.rs; documented readings: "1."/"." are not spellings, "a b R" behind an '
+              'integer is the reference (follow contexts), literal strings shorter than 2^31; one defect found and repaired '
+              '(repo commit 8188ffd: numbers with an explicit plus sign were rejected)')
+TECHNIQUE = 'Coq proof by mutual induction over the spelling relation (tokens, elements, entries) + differential correspondence'
